@@ -129,11 +129,59 @@ def hook(w, job, part):
         if op in ('setpin', 'initpin', 'restart', 'restart_proc') and rnd.random() < 0.5: check_private(rnd.randrange(len(w.m.toks)))
         if any(f.prop in ('C04', 'MODEL') for f in w.findings): break
 
+def two_process_scenarios(ctx, backend):
+    """A PIN change committed by one process must survive whatever another process, attached to the same token directory since before the change,
+    does afterwards (logins rewrite the token flags): in a NEW process the most recently set PIN logs in and the replaced one does not."""
+    SO, U, SO2, U2 = b'so-pin-2p', b'user-pin-2p', b'so-pin-2p-new', b'user-pin-2p-new'
+    def attach(x):
+        assert x.call('C_Initialize', locking='os')['rv'] == 0
+        slot = [sl for sl in x.call('C_GetSlotList', count=8)['slots'] if x.call('C_GetTokenInfo', slot=sl)['flags'] & x.ck.CKF_TOKEN_INITIALIZED][0]
+        return slot, x.call('C_OpenSession', slot=slot)['h']
+    for change in ('user-setpin', 'so-setpin', 'so-initpin'):
+        for a_action in ('so-login', 'so-login-wrong', 'user-login-old', 'user-login-wrong', 'so-login-twice'):
+            d = ctx.dir('twoproc'); x0 = ctx.new_exec('asan', d, backend); A = B = C = None
+            try:
+                assert x0.call('C_Initialize', locking='os')['rv'] == 0; slot = x0.call('C_GetSlotList', count=8)['slots'][-1]
+                assert x0.call('C_InitToken', slot=slot, pin=SO.hex(), label=b'two'.hex())['rv'] == 0; s = x0.call('C_OpenSession', slot=slot)['h']
+                assert x0.call('C_Login', s=s, user=0, pin=SO.hex())['rv'] == 0 and x0.call('C_InitPIN', s=s, pin=U.hex())['rv'] == 0
+                x0.call('C_Finalize'); x0.close(); x0 = None
+                A = ctx.new_exec('asan', d, backend, reuse_dir=True); slotA, sA = attach(A)          # A is attached before the change
+                B = ctx.new_exec('asan', d, backend, reuse_dir=True); slotB, sB = attach(B)
+                so_now, u_now, so_old, u_old = SO, U, None, None
+                if change == 'user-setpin': assert B.call('C_SetPIN', s=sB, old=U.hex(), new=U2.hex())['rv'] == 0; u_now, u_old = U2, U
+                elif change == 'so-setpin':
+                    assert B.call('C_Login', s=sB, user=0, pin=SO.hex())['rv'] == 0 and B.call('C_SetPIN', s=sB, old=SO.hex(), new=SO2.hex())['rv'] == 0; so_now, so_old = SO2, SO
+                else:
+                    assert B.call('C_Login', s=sB, user=0, pin=SO.hex())['rv'] == 0 and B.call('C_InitPIN', s=sB, pin=U2.hex())['rv'] == 0; u_now, u_old = U2, U
+                B.call('C_Finalize'); B.close(); B = None
+                # A acts with PINs that were (or are) valid; its own answers are not judged (its in-memory view may be stale), only what it leaves on disk
+                acts = {'so-login': [(0, SO)], 'so-login-wrong': [(0, b'definitely-wrong')], 'user-login-old': [(1, U)], 'user-login-wrong': [(1, b'definitely-wrong')], 'so-login-twice': [(0, SO), (0, SO2)]}[a_action]
+                for ut, pin in acts:
+                    r = A.call('C_Login', s=sA, user=ut, pin=pin.hex())
+                    if r['rv'] == 0: A.call('C_Logout', s=sA)
+                A.call('C_Finalize'); A.close(); A = None
+                C = ctx.new_exec('asan', d, backend, reuse_dir=True); slotC, sC = attach(C)
+                def logs_in(ut, pin):
+                    r = C.call('C_Login', s=sC, user=ut, pin=pin.hex())
+                    if r['rv'] == 0: C.call('C_Logout', s=sC)
+                    return r['rv'] == 0
+                for ut, now, old, nm in ((0, so_now, so_old, 'so'), (1, u_now, u_old, 'user')):
+                    if not logs_in(ut, now): ctx.violation(f'two-processes|{change},then-other-process:{a_action}|{nm}-pin-most-recently-set-refused-in-new-process', 'after another attached process acted, the PIN most recently set (CKR_OK) no longer logs in in a new process', {'backend': backend, 'change': change, 'other_process': a_action})
+                    if old is not None and logs_in(ut, old): ctx.violation(f'two-processes|{change},then-other-process:{a_action}|replaced-{nm}-pin-accepted-in-new-process', 'after another attached process acted, a replaced PIN logs in again in a new process', {'backend': backend, 'change': change, 'other_process': a_action})
+                ctx.case(('two-process', change, a_action, backend), sample={'two_process': [change, a_action, backend]} if a_action == 'so-login' else None)
+                C.call('C_Finalize'); C.close(); C = None
+            except AssertionError as e: ctx.inconc(f'two-process scenario setup failed ({change}, {a_action}, {backend}): {e!r}')
+            finally:
+                for x in (x0, A, B, C):
+                    if x is not None: x.kill()
+
 def run(ctx):
     ctx.rule = ('histories of C_InitToken / C_InitPIN / C_SetPIN (from RW public, RW user, SO, RO sessions) / C_Login attempts / restarts (C_Finalize+C_Initialize and new processes) on two tokens; '
                 'PINs from lengths 0..256 incl. MIN-1, MIN, MAX, MAX+1, embedded NUL, bytes >= 0x80, prefixes / extensions / one-bit neighbours of the real PIN, the other user\'s PIN, every previous PIN; '
                 'the model predicts exactly which byte string logs in; private token objects with recorded values are re-read after PIN events and restarts; '
                 'one evaluation = one step or probe; distinct = (event kind, user type / session state, PIN relation class) actually exercised')
+    ctx.need('asan')
+    for b in ('file', 'db'): two_process_scenarios(ctx, b)
     run_walks(ctx, {'C04'}, ctx.q(480, 4000), ctx.q(70, 80), backends=ctx.q(('file', 'db'), ('file', 'db')), hook=hook)
     ctx.assumptions += ['a wrong PIN is accepted by chance with probability ~2^-32 per attempt (padding + magic); not retried because no such hit has ever been observed']
 if __name__ == '__main__': main('C04', run, min_evaluations=2000, min_distinct=30)
